@@ -393,7 +393,7 @@ def run_sections_job(job, build):
 # ------------------------------------------------------------------------------------------------
 # whole documents
 
-DOC_GRAMMARS = ["g1", "c1", "c2", "c3", "c7", "c9", "hd", "h2", "k1", "k6", "o1", "hr", "un"]  # no env-backed grammar: help shows the variable's current value
+DOC_GRAMMARS = ["g1", "c1", "c2", "c3", "c7", "c9", "hd", "h2", "k1", "k6", "o1", "hr", "un", "gh"]  # no env-backed grammar: help shows the variable's current value
 DOC_FORMATS = ("md", "html", "man")
 
 
@@ -713,7 +713,7 @@ def make_jobs(tier, seed, build):
             for n in (1, 2):
                 for full in (True, False):
                     jobs.append({"id": "html:%s:prefix%r:%d:%d" % (tname, prefix, n, int(full)), "kind": "html", "template": tname, "lens": [n], "full": full, "prefix": [0, prefix]})
-    for gname in ("c1", "c2", "c3", "c4", "h2", "g1", "c7", "c8", "c9"):
+    for gname in ("c1", "c2", "c3", "c4", "h2", "g1", "c7", "c8", "c9", "gh"):
         jobs.append({"id": "sections:%s" % gname, "kind": "sections", "grammar": gname})
     for gname in DOC_GRAMMARS:
         for fmt in DOC_FORMATS:
